@@ -67,6 +67,7 @@ class Explorer:
         self.work: list[list[bool]] = [[]]
         self.exported: list[str] = []  # sampled SMT-LIB2 end-of-path queries for the second solver
         self.export_limit = 0
+        self._alt_model = None
         self.budget_s = None
         self.results = []
         self._reset_path([])
@@ -95,8 +96,24 @@ class Explorer:
         self.solver_time += time.time() - t
         self.queries += 1
         if r == z3.unknown:
-            raise Unsupported("solver unknown: %s" % self.solver.reason_unknown())
+            # one retry with a fresh solver and three times the budget (timeouts under machine load)
+            s2 = z3.Solver()
+            s2.set("timeout", self.query_timeout_ms * 3)
+            s2.add(self.solver.assertions())
+            t = time.time()
+            r = s2.check(*assumptions)
+            self.solver_time += time.time() - t
+            self.queries += 1
+            if r == z3.unknown:
+                raise Unsupported("solver unknown: %s" % s2.reason_unknown())
+            self._alt_model = s2.model() if r == z3.sat else None
+        else:
+            self._alt_model = None
         return r == z3.sat
+
+    def last_model(self):
+        """model of the last satisfiable check"""
+        return self._alt_model if self._alt_model is not None else self.solver.model()
 
     def add(self, c):
         if isinstance(c, bool):
@@ -116,7 +133,7 @@ class Explorer:
         if self.model is None:
             if not self.check():
                 raise PathAbort()
-            self.model = self.solver.model()
+            self.model = self.last_model()
         return self.model
 
     def assume(self, cond):
@@ -200,7 +217,7 @@ class Explorer:
                 d = True
                 self.model = m if mv else None
             elif self.check(z3.Not(t) if mv else t):
-                other_model = self.solver.model()
+                other_model = self.last_model()
                 self.work.append(self.decisions + [False])
                 d = True
                 self.model = m if mv else other_model
@@ -294,7 +311,7 @@ class Explorer:
             if self.export_limit and len(self.exported) < self.export_limit:
                 self.exported.append(self.solver.to_smt2().replace("(check-sat)", "") + "(assert %s)\n(check-sat)\n" % neg.sexpr())
             if self.check(neg):
-                self.result.obligations.append((label, "violated", self.model_inputs(self.solver.model())))
+                self.result.obligations.append((label, "violated", self.model_inputs(self.last_model())))
                 return False
             self.known[cond.key()] = True
             self._keep.append(cond.t)
